@@ -8,7 +8,9 @@ META = {
                   "Mul/Add/Div/Sub become * + / -, every other label is lower-cased; without replace_floats every label keeps that text (numeric constants keep their values); "
                   "with replace_floats exactly the numbers whose parent operator is not pow and the labels that already look like parameters become a<k>, k counting them in order of "
                   "position -- a number directly under pow keeps its text. generator.labels_to_shape is verified as a whole: entry p of the arity string is the class of label p among the three (pairwise disjoint) operator classes, 0 for a "
-                  "parameter-like label or a number that is no operator, and ValueError escapes only for a label that is none of these. The tree walk itself (sympy objects, DecoratedNode) is outside the verifier's reach and is bounded.",
+                  "parameter-like label or a number that is no operator, and ValueError escapes only for a label that is none of these. generator.string_to_node's bookkeeping is verified modularly (prologue, one block per reading, selection): every call into sympy / DecoratedNode may raise; a reading that "
+                  "raised is never returned; expression, tree and complexity returned belong to one reading, the complexity is the node count that very tree reported, no admissible reading "
+                  "has fewer nodes, and with check_ops a reading with foreign operators is returned only if every reading has some. The tree walk itself (sympy objects, DecoratedNode) is outside the verifier's reach and is bounded.",
     "text": "Bounded stand-in on the real string API (generator.string_to_node, DecoratedNode.to_list, fit_single.string_to_aifeyn and "
             "fit_single.fit_from_string with single_function replaced by a recorder, so that the relabelling / float-replacement code of both entry "
             "points runs unchanged): formulas are generated from a grammar over x, a0..a2, 1, 2, 3, 1.5, 0.25, the unary operators of the basis by "
@@ -64,6 +66,15 @@ def deductive(run):
     failed += f
     if st == "proved" and D.canary(run, "generation/generator.py", "labels_to_shape", c_generator.labels_to_shape_contract) is False:
         raise RuntimeError("canary verified: engine vacuous on labels_to_shape")
+    # string_to_node: the bookkeeping around its four readings (prologue, one block per reading, selection), modularly
+    from contracts import c_strnode
+    for tag_, mk_ in [("prologue", c_strnode.prologue_contract)] + [("reading %d" % k_, (lambda k_=k_: c_strnode.block_contract(k_))) for k_ in range(4)] + [("selection", c_strnode.tail_contract)]:
+        st, f, _e = D.verify_function(run, "generation/generator.py", "string_to_node", mk_, timeout_ms=8000, tag=tag_,
+                                      note="string_to_expr / DecoratedNode / count_nodes / check_operators / evalf opaque and allowed to raise at every call (engine option may_raise_calls); "
+                                           "the selection region is verified under the postconditions of the prologue and of the four blocks")
+        failed += f
+    if D.canary(run, "generation/generator.py", "string_to_node", c_strnode.tail_contract) is False:
+        raise RuntimeError("canary verified: engine vacuous on the selection region of string_to_node")
     run.assume("A-str: strings are abstract; lower(), startswith('a'), s[1:], generator.is_float are uninterpreted functions/predicates of the string (lower idempotent, literals evaluated)",
                "the label list handed to the post-processing is a well-formed prefix expression (check_tree succeeds and gives every non-root node an earlier parent): bounded part",
                "lemma library: counting facts and extensionality of the filter primitives (CNT/IDX/RNK)")
